@@ -120,21 +120,12 @@ func (w *c05World) remove(i int) {
 
 // key: the implementation state the future can depend on (ordered list, cursor, map keys, proxy index).
 func (w *c05World) key() string {
-	var l []string
-	for _, b := range w.rr.backends {
-		l = append(l, b.GetAddress())
+	rot, ok1 := wbRotation(w.rr)
+	pk, ok2 := wbProxyBackends(w.s.Proxies()[0])
+	if !ok1 || !ok2 {
+		return "wb:" + wbDump(w.rr) + wbDump(w.s.Proxies()[0])
 	}
-	var mk []string
-	for k := range w.rr.backendMap {
-		mk = append(mk, k)
-	}
-	sort.Strings(mk)
-	var pk []string
-	for k := range w.s.Proxies()[0].backends {
-		pk = append(pk, k)
-	}
-	sort.Strings(pk)
-	return fmt.Sprintf("list=%s idx=%d map=%s proxy=%s", strings.Join(l, ","), w.rr.index, strings.Join(mk, ","), strings.Join(pk, ","))
+	return fmt.Sprintf("list=%s idx=%d map=%s proxy=%s", strings.Join(rot.Members, ","), rot.Index, strings.Join(rot.MapKeys, ","), strings.Join(pk, ","))
 }
 
 // c05Exec replays a history on a fresh world, checking the oracle at every step; then, from the
@@ -187,13 +178,15 @@ func c05Exec(proto string, naddr int, hist []c05Op, probe bool) (string, string,
 		}
 	}
 	// list and map in step with the reference membership
-	var l []string
-	for _, b := range w.rr.backends {
-		l = append(l, c05Wire(b.GetAddress()))
-	}
-	sort.Strings(l)
-	if strings.Join(l, ",") != strings.Join(keysOf(reg), ",") || len(w.rr.backendMap) != len(reg) {
-		return "", "membership", fmt.Sprintf("after %v: rotation list %v, map size %d, reference %v", hist, l, len(w.rr.backendMap), keysOf(reg))
+	if rot, ok := wbRotation(w.rr); ok {
+		var l []string
+		for _, a := range rot.Members {
+			l = append(l, c05Wire(a))
+		}
+		sort.Strings(l)
+		if strings.Join(l, ",") != strings.Join(keysOf(reg), ",") || (rot.HasMap && len(rot.MapKeys) != len(reg)) {
+			return "", "membership", fmt.Sprintf("after %v: rotation list %v, map size %d, reference %v", hist, l, len(rot.MapKeys), keysOf(reg))
+		}
 	}
 	// a removed UDP backend's socket is closed; open backend sockets = registered backends
 	key := w.key()
@@ -374,7 +367,11 @@ func c05Run(c *Ctx) {
 				c.Violate(c05Sig(cl, h), cl, detail, c05Case{cf.proto, cf.n, h})
 				return "", false
 			}
-			c.Outcome(key[:strings.Index(key, " map=")])
+			if i := strings.Index(key, " map="); i >= 0 {
+				c.Outcome(key[:i])
+			} else {
+				c.Outcome(key)
+			}
 			if len(h) == 5 {
 				c.Sample(c05Case{cf.proto, cf.n, h})
 			}
